@@ -81,6 +81,29 @@ def l1_loop_guard(F, r):
             r.ok(inst, f"returns {want}")
         else:
             r.fail(inst, f"returns {p.ret} — with `>` instead of `>=` the solver runs limit+1 generations; with `<` it never starts", F.loc(mg[0]))
+    # MaxTime::is_termination by E-C: fires when the elapsed time exceeds the limit, never before it
+    mt = [m for m in F.trait_impl_methods(TERM + "::is_termination") if "MaxTime" in F.fns[m]["impl_self"]]
+    if len(mt) != 1:
+        raise AnchorError("MaxTime::is_termination")
+    it = oe.Interp(F, mt[0], {1: oe.ref(oe.sym("self")), 2: oe.ref(oe.sym("ctx"))}, heap={("self", "limit_in_secs"): oe.sym("limit")}, fresh=True,
+                   call_models={"::elapsed_secs_as_float": lambda i_, a, h, rl: oe.sym("elapsed")})
+    n = 0
+    for p in it.explore():
+        rel = [a for a in p.assumptions if len(a) == 3 and isinstance(a[2], str) and a[2] in "LEG" and a[0] != "switch"]
+        if not rel:
+            r.fail("MaxTime::is_termination", f"not a comparison of the elapsed time with the limit (returns {p.ret})", F.loc(mt[0]))
+            continue
+        a, b, o = rel[0]
+        if "limit" in a and "limit" not in b:
+            o = oe.rev(o)
+        n += 1
+        inst = f"MaxTime::is_termination[elapsed {'<=>'['LEG'.index(o)]} limit]"
+        if o == "E" or p.ret == ("bool", o == "G"):
+            r.ok(inst, f"returns {p.ret[1] if p.ret else p.ret}")
+        else:
+            r.fail(inst, f"returns {p.ret}: the time limit fires before it is reached or never fires after it", F.loc(mt[0]))
+    if n < 3:
+        r.fail("MaxTime::is_termination: coverage", f"only {n} orderings explored", F.loc(mt[0]))
     # CompositeTermination: any criterion terminates
     ct = [m for m in F.trait_impl_methods(TERM + "::is_termination") if "CompositeTermination" in F.fns[m]["impl_self"]]
     if len(ct) != 1:
